@@ -2,7 +2,7 @@
 
 from __future__ import annotations
 
-from quansino.mc.canonical import Canonical
+from quansino.mc.canonical import Canonical, HamiltonianCanonical
 from quansino.mc.contexts import (
     Context,
     DeformationContext,
@@ -18,12 +18,15 @@ from quansino.mc.criteria import (
     BaseCriteria,
     CanonicalCriteria,
     GrandCanonicalCriteria,
+    HamiltonianCanonicalCriteria,
     IsobaricCriteria,
+    IsotensionCriteria,
 )
 from quansino.mc.driver import Driver
 from quansino.mc.fbmc import AdaptiveForceBias, ForceBias
 from quansino.mc.gcmc import GrandCanonical
 from quansino.mc.isobaric import Isobaric
+from quansino.mc.isotension import Isotension
 from quansino.registry import register_class
 
 __all__ = [
@@ -39,12 +42,16 @@ __all__ = [
     "ForceBias",
     "GrandCanonical",
     "GrandCanonicalCriteria",
+    "HamiltonianCanonical",
+    "HamiltonianCanonicalCriteria",
     "HamiltonianContext",
     "HamiltonianDeformationContext",
     "HamiltonianDisplacementContext",
     "HamiltonianExchangeContext",
     "Isobaric",
     "IsobaricCriteria",
+    "Isotension",
+    "IsotensionCriteria",
     "MonteCarlo",
 ]
 
@@ -63,10 +70,14 @@ mc_registry = {
     "DisplacementContext": DisplacementContext,
     "ExchangeContext": ExchangeContext,
     "Isobaric": Isobaric,
+    "Isotension": Isotension,
+    "HamiltonianCanonical": HamiltonianCanonical,
     "GrandCanonical": GrandCanonical,
     "ForceBias": ForceBias,
     "IsobaricCriteria": IsobaricCriteria,
     "GrandCanonicalCriteria": GrandCanonicalCriteria,
+    "IsotensionCriteria": IsotensionCriteria,
+    "HamiltonianCanonicalCriteria": HamiltonianCanonicalCriteria,
     "MonteCarlo": MonteCarlo,
 }
 
